@@ -505,6 +505,7 @@ pub struct Sim {
     /// number of real endpoints (2 = pair mode, 1 = endpoint "A" against a scripted raw peer "B")
     pub real: usize,
     pub dead: bool,
+    pub cur_cmd: Value,
 }
 
 fn err_kind(e: &penguin_mux::Error) -> &'static str {
@@ -584,6 +585,7 @@ impl Sim {
             step: 0,
             real,
             dead: false,
+            cur_cmd: Value::Null,
         };
         let ev = json!({"ev": "reset", "cfg": {"A": s.eps[0].cfg, "B": s.eps[1].cfg}, "real": real});
         s.out.push(ev);
@@ -596,6 +598,9 @@ impl Sim {
 
     fn emit(&mut self, mut ev: Value) {
         self.step += 1;
+        if ev["ev"] == "dg_send" {
+            ev["cmd"] = self.cur_cmd.clone();
+        }
         let woke = self.wakers.take_woken();
         ev["woke"] = json!(woke);
         self.out.push(ev);
@@ -610,6 +615,7 @@ impl Sim {
         if self.dead {
             return false;
         }
+        self.cur_cmd = cmd.clone();
         let r = catch_unwind(AssertUnwindSafe(|| self.exec_inner(cmd)));
         match r {
             Ok(b) => b,
@@ -619,11 +625,7 @@ impl Sim {
                     .cloned()
                     .or_else(|| p.downcast_ref::<&str>().map(|s| (*s).to_string()))
                     .unwrap_or_default();
-                let mut ev = cmd.clone();
-                ev["ev"] = cmd["op"].clone();
-                ev["res"] = json!("panic");
-                ev["panic"] = json!(msg);
-                self.emit(ev);
+                self.emit(json!({"ev": "panic", "cmd": cmd, "panic": msg}));
                 self.dead = true;
                 true
             }
